@@ -150,7 +150,14 @@ def readEntry (what : String) (deflated : Bool) (kind : Kind) (m : Nat) (sticky 
         let d := d ++ s!" model={mr}:pos={mp}:fails={mf}"
         match viol with
         | some c => if same then .modelled c d else .fail c d
-        | none => if same then .good else .diff d
+        | none =>
+          if same then .good
+          -- the byte stream of a PDU / P-DATA message ends (read returns 0) where the reference receiver
+          -- (`Props/C34`: Ok ⇒ the complete PDU / message was delivered) reports the missing bytes, and the
+          -- implementation reports success: success with incomplete input
+          else if res == "ok" ∧ mr == "err" ∧ kind = .zero ∧ (what == "wire" ∨ what == "pdata") then
+            .fail "pdu-stream-truncated-reported-ok" d
+          else .diff d
     | _, _, _ => .diff s!"bad entry {e}"
   | _ => .diff s!"bad entry {e}"
 
